@@ -486,7 +486,7 @@ impl Property for C29 {
         "virtual-time timeout (paused tokio clock) distinguishes 'connection left open' from 'closed'",
     ];
     const QUICK_CASES: u32 = 120_000;
-    const THOROUGH_CASES: u32 = 1_200_000;
+    const THOROUGH_CASES: u32 = 2_500_000;
 
     fn strategy(_tier: Tier) -> BoxedStrategy<Case> {
         case()
